@@ -47,10 +47,7 @@ def arity_obligations(run, wsdir_for_mir=None):
         out = os.path.join(root, "steel_core.mir")
         env = dict(os.environ, CARGO_NET_OFFLINE="true")
         env.pop("RUSTFLAGS", None)
-        with open(out, "w") as f, open(os.path.join(root, "mir.err"), "w") as e:
-            p = subprocess.run(["cargo", "+nightly", "rustc", "--offline", "-p", "steel-core", "--lib", "--no-default-features",
-                                "--features", ws.FEATURES, "--target-dir", os.path.join(root, "tmir"), "--",
-                                "-Zunpretty=mir", "-C", "debug-assertions=off"], cwd=wsdir, stdout=f, stderr=e, env=env)
+        ws.mir_dump(wsdir, root, out, env)
         funcs = mir.parse(open(out).read(), lambda n: "register_fn" in n and "{closure" in n)
         wrappers = p_arity.wrappers(funcs)
     except Exception as ex:
